@@ -484,6 +484,10 @@ fn expand_one_env(sh: &Shell, token: &str) -> String {
     // never scanned again, so a value that itself contains `$NAME` (or a
     // reference to the same variable) is inserted literally.
     let re = Regex::new(r"\$\{([A-Za-z0-9_]+|\$|\?)\}|\$([A-Za-z0-9_]+|\$|\?)").unwrap();
+    // A reference inside a `$(...)` or `` `...` `` part of the word belongs
+    // to the inner command, which expands it itself: inserting the value
+    // here would have it read as syntax when that command is parsed.
+    let inner = substitution_spans(token);
     let mut result = String::new();
     let mut last = 0;
     for cap in re.captures_iter(token) {
@@ -491,6 +495,9 @@ fn expand_one_env(sh: &Shell, token: &str) -> String {
             Some(m) => (m.start(), m.end()),
             None => continue,
         };
+        if inner.iter().any(|(a, b)| start > *a && start < *b) {
+            continue;
+        }
         let key = match cap.get(1).or_else(|| cap.get(2)) {
             Some(m) => m.as_str(),
             None => continue,
@@ -1031,6 +1038,40 @@ fn strip_substitutions(text: &str) -> String {
     }
     result.push_str(rest);
     result
+}
+
+/// Where the `$(...)` and `` `...` `` parts of a word are: (index of the
+/// opening `$` or backquote, index of the closing `)` or backquote).
+fn substitution_spans(text: &str) -> Vec<(usize, usize)> {
+    let mut spans = Vec::new();
+    let mut offset = 0;
+    loop {
+        let rest = &text[offset..];
+        let pos_dollar = rest.find("$(");
+        let pos_dot = rest.find('`');
+        let use_dollar = match (pos_dollar, pos_dot) {
+            (Some(a), Some(b)) => a < b,
+            (Some(_), None) => true,
+            (None, Some(_)) => false,
+            (None, None) => break,
+        };
+        let (start, end) = if use_dollar {
+            let start = pos_dollar.unwrap_or(0);
+            match find_matching_paren(rest, start + 1) {
+                Some(end) => (start, end),
+                None => break,
+            }
+        } else {
+            let start = pos_dot.unwrap_or(0);
+            match rest[start + 1..].find('`') {
+                Some(x) => (start, start + 1 + x),
+                None => break,
+            }
+        };
+        spans.push((offset + start, offset + end));
+        offset += end + 1;
+    }
+    spans
 }
 
 fn do_command_substitution(sh: &mut Shell, tokens: &mut types::Tokens) {
